@@ -557,6 +557,9 @@ func doCounters(w *world, q int, f []string, t int64) string {
 
 // wellFormed mirrors Spec.C01.wellFormed (what the loader's validation admits, parents first).
 func wellFormed(qs []quotaCfg) bool {
+	if len(qs) == 0 { // an empty quota file is rejected by the loader ("quota part is missing")
+		return false
+	}
 	for i, q := range qs {
 		if q.max < 1 || q.win < 1 || q.win%int64(time.Second) != 0 || q.parent >= i {
 			return false
